@@ -3,10 +3,10 @@ CONSTANTS
   Inputs <- InputsDef
   Limit = 2
   HasEnc = TRUE
-  MaxChunk = 6
-  MaxPolls = 7
+  MaxChunk = 3
+  MaxPolls = 6
   MaxEmpty = 1
-  EmptyIsData = TRUE
+  EmptyIsData = FALSE
   Latch = TRUE
 INVARIANTS Shape NoPollAfterEnd
 PROPERTIES ContractHolds Terminates
